@@ -18,8 +18,11 @@ IsShape(shape) == \A k \in 1..Len(shape) : shape[k] \in Nat \ {0}
 
 \* all positions of an array of the given shape (rank 0 = one position << >>)
 Positions(shape) ==
-    IF Len(shape) = 0 THEN { << >> }
-    ELSE { p \in [ 1..Len(shape) -> 1..MaxOf(SeqRange(shape)) ] : \A k \in 1..Len(shape) : p[k] <= shape[k] }
+    CASE Len(shape) = 0 -> { << >> }
+      [] Len(shape) = 1 -> { << a >> : a \in 1..shape[1] }
+      [] Len(shape) = 2 -> { << a, b >> : a \in 1..shape[1], b \in 1..shape[2] }
+      [] Len(shape) = 3 -> { << a, b, c >> : a \in 1..shape[1], b \in 1..shape[2], c \in 1..shape[3] }
+      [] OTHER -> { p \in [ 1..Len(shape) -> 1..MaxOf(SeqRange(shape)) ] : \A k \in 1..Len(shape) : p[k] <= shape[k] }
 
 RECURSIVE FlatFrom(_, _, _)
 FlatFrom(shape, p, k) == IF k > Len(shape) THEN 0 ELSE (p[k] - 1) * ProdFrom(shape, k + 1) + FlatFrom(shape, p, k + 1)
